@@ -428,7 +428,8 @@ def main():
         # longer directive lines with a fixed head and a free tail: '#pragma' / '# pragma' + tail, '#line 1' / '# 1' + tail
         tail = 4 if checklib.tier() == "quick" else 6
         heads = {"pragma": ["#", " \t", "p", "r", "a", "g", "m", "a"], "pragma0": ["#", "p", "r", "a", "g", "m", "a"],
-                 "line": ["#", "l", "i", "n", "e", " \t", "12"], "marker": ["#", " \t", "12", " \t", '"', "x", '"']}
+                 "line": ["#", "l", "i", "n", "e", " \t", "12"], "marker": ["#", " \t", "12", " \t", '"', "x", '"'],
+                 "marker3flags": ["#", " ", "1", " ", '"', "x", '"', " ", "1", " ", "2", " ", "12"], "line-file": ["#", "l", "i", "n", "e", " ", "1", " ", '"', "x", '"']}
         for hname, head in heads.items():
             n = len(head) + tail
             jobs.append((make_job(Lmod, SymBase(n, name="c", minlen=len(head), alphabet=red), f"directive-tail/{hname}+{tail}", fixed_prefix=head), n))
